@@ -487,28 +487,50 @@ def check_empty(ctx: Context, rep, sel) -> None:
 
 
 def check_formats(ctx: Context, rep) -> None:
+    """Every function of the iteration module that dispatches on the shard
+    file type refuses a value it has no reader for: evaluated by
+    specialising the function on shard_file_type = <a name no arm knows>
+    (match, if/elif chains and dict look-ups read the same)."""
+    from sa import norm, pathval
+    from sa.cfg import CFG
+    from sa.dispatch import literal_dispatches
     types_mod = ctx.repo.module("sedpack.io.types")
     lit = types_mod.globals.get("ShardFileTypeT")
     if not isinstance(lit, ast.Subscript):
         raise AnalysisError("ShardFileTypeT is not a Literal[...] alias")
     elts = lit.slice.elts if isinstance(lit.slice, ast.Tuple) else [lit.slice]
     members = {e.value for e in elts if isinstance(e, ast.Constant)}
+    subject = "self.dataset_structure.shard_file_type"
     n = 0
-    from sa import norm
-    from sa.context import raises_in
-    from sa.dispatch import literal_dispatches
     for f in ctx.repo.module(C.ITER_MOD).functions.values():
-        for d in literal_dispatches(f.body_nodes()):
-            if not norm.canon(f, d.subject).endswith("shard_file_type"):
-                continue
-            n += 1
-            arms = {x for lits, _ in d.arms for x in lits}
-            default_raises = d.default is not None and raises_in(d.default)
-            rep.ob("C12.formats", arms <= members and default_raises,
-                   loc=f.loc(d.node), where=f.qualname,
-                   construct=f"dispatch on shard_file_type arms={sorted(arms)}",
-                   message="arms are members of ShardFileTypeT "
-                   f"{sorted(members)} and the default arm raises")
+        if isinstance(f.node, ast.Lambda):
+            continue
+        disp = [d for d in literal_dispatches(f.body_nodes())
+                if norm.canon(f, d.subject).endswith("shard_file_type")]
+        lookups = [x for x in f.body_nodes() if (
+            isinstance(x, ast.Call) and isinstance(x.func, ast.Attribute) and
+            x.func.attr == "get" and x.args and norm.canon(
+                f, x.args[0]).endswith("shard_file_type")) or (
+                    isinstance(x, ast.Subscript) and norm.canon(
+                        f, x.slice).endswith("shard_file_type"))]
+        if not disp and not lookups:
+            continue
+        n += 1
+        arms = {x for d in disp for lits, _ in d.arms for x in lits}
+        env = {subject: "<no such shard file type>"}
+        cfg = CFG(f, env=env, oracle=pathval.expr_oracle(f, env))
+        live = cfg.reachable([cfg.entry],
+                             follow=lambda a, b, lab: lab not in ("exc", ))
+        refuses = cfg.exit not in live and any(
+            x.kind == "stmt" and isinstance(x.ast, ast.Raise) and x in live
+            for x in cfg.nodes)
+        rep.ob("C12.formats", arms <= members and refuses,
+               loc=f.loc(disp[0].node if disp else lookups[0]),
+               where=f.qualname,
+               construct=f"dispatch on shard_file_type arms={sorted(arms)}, "
+               f"unknown type refused={refuses}",
+               message="arms are members of ShardFileTypeT "
+               f"{sorted(members)} and an unknown type raises")
     if n < 3:
         raise AnalysisError(f"C12.formats: only {n} format dispatches found")
 
